@@ -222,6 +222,83 @@ pub fn check_type(ty: &Ty, tape: &mut Tape, n_values: usize, stats: &mut Stats) 
     fails
 }
 
+/// Names and parameter objects: project types whose own name ends in `Schema`, next to a type
+/// with the un-suffixed name, referenced through every wrap; commands with channel-only, mixed and
+/// optional parameters whose names are several words long. Both modes must declare the same
+/// names, the same keys (with the same omittability) and per key the same shape.
+pub fn check_names(w: &str, stats: &mut Stats) -> Vec<Failure> {
+    use crate::gen::graph::wrap;
+    let ty = wrap(w, Ty::named("FormSchema"), false);
+    let mut src = String::from(crate::gen::rust::PRELUDE);
+    src.push_str("#[derive(Debug, Clone, Serialize, Deserialize, PartialEq, Eq, Hash)]\npub struct Form {\n    pub id: i32,\n}\n\n");
+    src.push_str("#[derive(Debug, Clone, Serialize, Deserialize, PartialEq, Eq, Hash)]\npub struct FormSchema {\n    pub title: String,\n    pub first: Form,\n}\n\n");
+    src.push_str(&format!("#[derive(Debug, Clone, Serialize, Deserialize)]\npub struct Page {{\n    pub layout: {},\n    pub form: Form,\n    pub plain_schema: FormSchema,\n}}\n\n", ty.rust(true)));
+    src.push_str(&format!("#[tauri::command]\npub fn save_layout(new_layout: {}, page_id: Option<u32>) {{}}\n\n", ty.rust(false)));
+    src.push_str("#[tauri::command]\npub fn keep(p: Page) {}\n\n#[tauri::command]\npub fn subscribe(on_event: Channel<Form>) {}\n\n");
+    src.push_str("#[tauri::command]\npub fn mixed(user_id: i32, on_big_event: Channel<FormSchema>, opt_name: Option<String>) {}\n");
+    must_parse("src/lib.rs", &src);
+    let files = [("src/lib.rs".to_string(), src.clone())];
+    let out_n = generate(&files, &Cfg::mode("none"));
+    let out_z = generate(&files, &Cfg::mode("zod"));
+    stats.eval();
+    stats.nontrivial(&("names", w));
+    stats.label("names_and_params");
+    let tags = vec![format!("wrap={}", w), "sub=names".to_string()];
+    let case = json!({"wrap": w, "rust": src});
+    for (o, m) in [(&out_n, "none"), (&out_z, "zod")] {
+        if let Err(e) = &o.result {
+            return vec![Failure::new("tool_error").tags(tags).tag(format!("mode={}", m)).observed(e.clone()).expected("generation succeeds").case(case)];
+        }
+    }
+    let pn = tsx::parse(out_n.file("types.ts").unwrap_or(""));
+    let pz = tsx::parse(out_z.file("types.ts").unwrap_or(""));
+    let mut fails = vec![];
+    let mk = |kind: &str, obs: String, exp: String| Failure::new(kind).tags(tags.clone()).observed(obs).expected(exp).case(case.clone());
+    // parameter objects: same keys, same omittability
+    for params in ["SaveLayoutParams", "KeepParams", "SubscribeParams", "MixedParams"] {
+        let kn = super::c04::keys_of_type(&pn, params);
+        let kz = super::c04::keys_of_type(&pz, params);
+        match (&kn, &kz) {
+            (Ok(a), Ok(b)) => {
+                if a != b {
+                    fails.push(mk("param_keys_differ", format!("zod: {:?}", b), format!("plain: {:?}", a)).tag(format!("params={}", params)));
+                }
+            }
+            (Err(e), _) | (_, Err(e)) => fails.push(mk("param_object_unreadable", e.clone(), format!("{} readable in both modes", params)).tag(format!("params={}", params))),
+        }
+    }
+    // structs: same keys, per key the same shape
+    let env = schema_env(out_z.file("types.ts").unwrap_or(""));
+    for st in ["Form", "FormSchema", "Page"] {
+        let Some(iface) = pn.interface(st) else {
+            fails.push(mk("missing_decl", format!("no interface {} in plain mode", st), "declared".into()));
+            continue;
+        };
+        let Some(Z::Object(fields)) = env.get(&format!("{}Schema", st)) else {
+            fails.push(mk("missing_decl", format!("no object schema {}Schema in zod mode", st), "declared".into()));
+            continue;
+        };
+        let plain = crate::ts::shape::members_to_obj(&iface.members);
+        let plain_keys: Vec<&String> = plain.keys().collect();
+        let mut zod_keys: Vec<&String> = fields.iter().map(|(k, _)| k).collect();
+        zod_keys.sort();
+        if plain_keys != zod_keys {
+            fails.push(mk("struct_keys_differ", format!("zod: {:?}", zod_keys), format!("plain: {:?}", plain_keys)).tag(format!("struct={}", st)));
+            continue;
+        }
+        for (k, z) in fields {
+            let sz = zodm::infer(z);
+            let sn = &plain[k].1;
+            if canon_top(sn) != canon_top(&sz) {
+                let f = mk("structure_differs", format!("zod infers {} for {}.{} ⟸ {}", sz, st, k, pz.src_of(&format!("{}Schema", st)).unwrap_or_default()), format!("{} ⟸ {}", sn, pn.src_of(st).unwrap_or_default())).tag(format!("struct={}", st)).tags(ty.tags());
+                fails.push(f);
+            }
+        }
+    }
+    stats.sample(|| json!({"sub": "names", "wrap": w, "plain_Page": pn.src_of("Page"), "zod_Page": pz.src_of("PageSchema")}));
+    fails
+}
+
 fn random_case(t: &mut Tape) -> Ty {
     let depth = t.range(1, 4);
     let structs = vec![STRUCT.to_string()];
@@ -257,6 +334,8 @@ pub fn run(ctx: &Ctx) {
             check_type(t, &mut tape, n_values, stats)
         },
     );
+    let wraps: Vec<String> = crate::gen::graph::WRAPS.iter().map(|w| w.to_string()).collect();
+    ctx.enumerate("c10.names", &wraps, |w| json!({"wrap": w}), |w, stats| check_names(w, stats));
     let cases = ctx.tier.pick(2000, 30000);
     ctx.search("c10.tree", cases, 96, |tape, stats| {
         let ty = random_case(tape);
@@ -281,6 +360,7 @@ pub fn replay(check: &str, input: &Value, stats: &mut Stats) -> Option<Vec<Failu
             }
             Some(fails)
         }
+        "c10.names" => Some(check_names(input["wrap"].as_str()?, stats)),
         "c10.tree" => {
             let mut tape = Tape::new(super::tape_of(input));
             let ty = random_case(&mut tape);
